@@ -328,6 +328,8 @@ impl Prop for C12 {
         let mut contents: Vec<String> = case.files().into_iter().map(|f| f.1).collect();
         contents.push(mutate::char_soup(&mut s, 10));
         contents.push(String::new());
+        contents.push("\u{FEFF}package a; parcelable P { Strin x; }".to_owned());
+        contents.push("package a;\r\nparcelable P { int x; }\r\n".to_owned());
         contents.extend(fixed_contents());
         let nids = s.range(2, 6);
         let nops = s.range(1, 40);
